@@ -291,14 +291,14 @@ def prop_kernel(case):
         rr = int(np.argmax(np.abs(val[j[0]] * A[:, j[1]])))
         br = branch_of(times[j[0]], rates[rr], mus[0], sgs[0])
         check(False, f"kernel.value.{multi}.{br}", lambda: (
-            f"t={times[j[0]]!r} col={j[1]} got={raw[j]!r} ref={want[j]!r} err/tol={r:.3g} rates={rates.tolist()} "
+            f"t={times[j[0]]!r} col={j[1]} got={float(raw[j])!r} ref={float(want[j])!r} err/tol={r:.3g} rates={rates.tolist()} "
             f"centres={[float(m) for m in mus[0]]} widths={[float(s) for s in sgs[0]]} scales={scales}"))
     # normalisation (separate root cause): same call with normalize on
     _, _, _, nrm = call_matrix(case, True, "kernel.call")
     ssum = float(sum((orc.mpf(s) for s in scales), orc.mpf(0)))
     r2, j2 = worst(nrm, want / ssum, tol / ssum)
     check(nrm.shape == want.shape and r2 <= 1, "kernel.normalize", lambda: (
-        f"normalize=True: t={times[j2[0]]!r} got={nrm[j2]!r} ref={(want / ssum)[j2]!r} (sum of scales {ssum!r}, "
+        f"normalize=True: t={times[j2[0]]!r} got={float(nrm[j2])!r} ref={float((want / ssum)[j2])!r} (sum of scales {ssum!r}, "
         f"{len(scales)} gaussians) err/tol={r2:.3g}"))
     tags = classify(times, rates, mus[0], sgs[0], val) | common_tags(case)
     nontrivial = bool(tags & {"both_branches", "near_switch", "ksigma>10"})
@@ -345,7 +345,7 @@ def feature_of(case):
 
 def twin_tolerance(case, ref_i, rates, A, mu_i, sg_i, scales):
     """Twin parameters are the exact effective values rounded to float (relative error <= eps/2 each)."""
-    orc_ref, dmu, dsg = orc.columns(case["times"], rates, mu_i, sg_i, scales)
+    _, dmu, dsg = orc.columns(case["times"], rates, mu_i, sg_i, scales)
     slack = np.zeros(ref_i["val"].shape)
     for g in range(len(scales)):
         slack += orc.to_float(dmu[:, :, g]) * EPS * abs(float(mu_i[g])) + orc.to_float(dsg[:, :, g]) * EPS * abs(float(sg_i[g]))
@@ -365,7 +365,7 @@ def prop_index(case):
     for i in range(len(axis)):
         r, j = worst(raw[i], refs[i]["want"], refs[i]["tol"])
         check(r <= 1, f"index.{feat}.oracle", lambda: (
-            f"index {i} (axis value {axis[i]!r}): t={times[j[0]]!r} col={j[1]} got={raw[i][j]!r} ref={refs[i]['want'][j]!r} err/tol={r:.3g}; "
+            f"index {i} (axis value {axis[i]!r}): t={times[j[0]]!r} col={j[1]} got={float(raw[i][j])!r} ref={float(refs[i]['want'][j])!r} err/tol={r:.3g}; "
             f"effective centres={[float(m) for m in mus[i]]} widths={[float(s) for s in sgs[i]]}"
             + "".join(f"; matches index {o}" for o in range(len(axis)) if o != i and worst(raw[i], refs[o]["want"], refs[o]["tol"])[0] <= 1)))
     # (b) metamorphic: the index-independent matrix of a plain multi-Gaussian IRF with exactly these values
@@ -375,7 +375,7 @@ def prop_index(case):
         tol = refs[i]["tol"] + twin_tolerance(case, refs[i], rates, A, mus[i], sgs[i], scales)
         r, j = worst(raw[i], tw, tol)
         check(r <= 1, f"index.{feat}.twin", lambda: (
-            f"index {i} (axis value {axis[i]!r}): t={times[j[0]]!r} col={j[1]} matrix[i]={raw[i][j]!r} twin={tw[j]!r} err/tol={r:.3g}; "
+            f"index {i} (axis value {axis[i]!r}): t={times[j[0]]!r} col={j[1]} matrix[i]={float(raw[i][j])!r} twin={float(tw[j])!r} err/tol={r:.3g}; "
             f"twin centres={[float(m) for m in mus[i]]} widths={[float(s) for s in sgs[i]]}"))
     # normalisation of the index-dependent path
     _, _, _, nrm = call_matrix(case, True, "index.call")
@@ -384,7 +384,7 @@ def prop_index(case):
     for i in range(len(axis)):
         r, j = worst(nrm[i], refs[i]["want"] / ssum, refs[i]["tol"] / ssum)
         check(r <= 1, "index.normalize", lambda: (
-            f"normalize=True index {i}: t={times[j[0]]!r} got={nrm[i][j]!r} ref={(refs[i]['want'] / ssum)[j]!r} "
+            f"normalize=True index {i}: t={times[j[0]]!r} got={float(nrm[i][j])!r} ref={float((refs[i]['want'] / ssum)[j])!r} "
             f"(sum of scales {ssum!r}, {len(scales)} gaussians) err/tol={r:.3g}"))
     tags = common_tags(case) | {f"feature_{feat}", f"indices_{len(axis)}"}
     for i in range(len(axis)):
@@ -464,8 +464,8 @@ def prop_result(case):
     for i in range(len(axis)):
         r, j = worst(vals[i], refs[i]["want"] / ssum, refs[i]["tol"] / ssum)
         check(r <= 1, f"result.matrix.{feat}", lambda: (
-            f"index {i} (axis value {axis[i]!r}) normalize={irf['normalize']}: t={times[j[0]]!r} col={j[1]} got={vals[i][j]!r} "
-            f"ref={(refs[i]['want'] / ssum)[j]!r} err/tol={r:.3g}; effective centres={[float(m) for m in mus[i]]} widths={[float(s) for s in sgs[i]]}"))
+            f"index {i} (axis value {axis[i]!r}) normalize={irf['normalize']}: t={times[j[0]]!r} col={j[1]} got={float(vals[i][j])!r} "
+            f"ref={float((refs[i]['want'] / ssum)[j])!r} err/tol={r:.3g}; effective centres={[float(m) for m in mus[i]]} widths={[float(s) for s in sgs[i]]}"))
     tags = common_tags(case) | {f"feature_{feat}", f"indices_{len(axis)}", "normalized" if irf["normalize"] else "unnormalized"}
     c_b, w_b, _ = gen.broadcast(irf)
     # irf_center_location: centre + dispersion polynomial per Gaussian and index (the statement does not say
@@ -481,7 +481,7 @@ def prop_result(case):
                 adm = [float(mus[i][g]), float(mus[i][g] + orc.mpf(sh))]
                 tol = 8 * dmus[i][g] + 4 * EPS * (abs(adm[0]) + abs(adm[1]))
                 check(any(abs(loc[g, i] - a) <= tol for a in adm), "result.center_location", lambda: (
-                    f"irf_center_location[gaussian {g}, index {i}]={loc[g, i]!r}, admissible {adm} (tol {tol:.3g})"))
+                    f"irf_center_location[gaussian {g}, index {i}]={float(loc[g, i])!r}, admissible {adm} (tol {tol:.3g})"))
         tags.add("checked_center_location")
     # irf_shift: one entry per index; admissible: shift_i or (first centre - shift_i)
     if irf.get("shift") is not None:
@@ -491,7 +491,7 @@ def prop_result(case):
         for i in range(len(axis)):
             adm = [irf["shift"][i], float(orc.mpf(irf["center"][0]) - orc.mpf(irf["shift"][i]))]
             tol = 4 * EPS * (abs(irf["center"][0]) + abs(irf["shift"][i]))
-            check(any(abs(shv[i] - a) <= tol for a in adm), "result.shift", lambda: f"irf_shift[{i}]={shv[i]!r}, admissible {adm}")
+            check(any(abs(shv[i] - a) <= tol for a in adm), "result.shift", lambda: f"irf_shift[{i}]={float(shv[i])!r}, admissible {adm}")
         tags.add("checked_shift")
     # irf: proportional to the sum of Gaussians of some index (amplitude- or area-weighted, with or without
     # shift: the statement fixes the Gaussians, not the normalisation or the index of the reported trace)
